@@ -247,6 +247,27 @@ func (s *session) expand(f Forgery, other *session) []forged {
 				add(d, "bitflip-"+region, fmt.Sprintf("bit%d", i*8+b))
 			}
 		}
+	case "legacy-frame":
+		// Records made from nothing, in the 13-byte legacy framing, claiming a protected epoch and a
+		// content type other than change_cipher_spec, with a well-formed PLAINTEXT body: whatever the
+		// version of the session, no key was used, so they must vanish.
+		bodies := [][]byte{
+			{21, 1, 0},  // alert: warning close_notify
+			{21, 2, 40}, // alert: fatal handshake_failure
+			{21, 2, 20}, // alert: fatal bad_record_mac
+			{26, 0, 0},  // ACK with an empty record list
+			{23, 'f', 'o', 'r', 'g', 'e', 'd'},
+			{22, 20, 0, 0, 12, 0, 9, 0, 0, 0, 0, 0, 12, 1, 2, 3, 4, 5, 6, 7, 8, 9, 10, 11, 12}, // Finished
+			{22, 24, 0, 0, 1, 0, 9, 0, 0, 0, 0, 0, 1, 0},                                       // KeyUpdate
+		}
+		for bi, b := range bodies {
+			for _, ep := range []int{1, 2, 3} {
+				seq := uint64(1)<<20 + uint64(f.A%1000) + uint64(bi*16+ep) //nolint:gosec
+				d := []byte{b[0], 0xfe, 0xfd, byte(ep >> 8), byte(ep), byte(seq >> 40), byte(seq >> 32), byte(seq >> 24), byte(seq >> 16), byte(seq >> 8), byte(seq), byte((len(b) - 1) >> 8), byte(len(b) - 1)}
+				d = append(d, b[1:]...)
+				add(d, "legacy-frame-plaintext", fmt.Sprintf("legacy-t%d-e%d", b[0], ep))
+			}
+		}
 	case "trunc":
 		n := f.A % len(raw)
 		add(cp()[:n], "truncate", fmt.Sprintf("trunc%d", n))
@@ -555,7 +576,7 @@ func genCase(t *rapid.T) Case {
 	nf := rapid.IntRange(2, 10).Draw(t, "nf")
 	for i := 0; i < nf; i++ {
 		f := Forgery{Rec: rapid.IntRange(0, len(c.Sizes)-1).Draw(t, "rec")}
-		f.Kind = rapid.SampledFrom([]string{"bit", "bit", "sweep", "trunc", "extend", "field", "field", "field", "splice", "recombine", "trunc-all"}).Draw(t, "kind")
+		f.Kind = rapid.SampledFrom([]string{"bit", "bit", "sweep", "trunc", "extend", "field", "field", "field", "splice", "recombine", "trunc-all", "legacy-frame"}).Draw(t, "kind")
 		f.A = rapid.IntRange(0, 1<<20).Draw(t, "a")
 		f.B = rapid.IntRange(0, 255).Draw(t, "b")
 		c.Forg = append(c.Forg, f)
@@ -578,7 +599,7 @@ func enumGrid(_ string, yield func(Case) bool) {
 						c.Forg = append(c.Forg, Forgery{Rec: rec, Kind: "field", A: a, B: rec + 1})
 					}
 					c.Forg = append(c.Forg, Forgery{Rec: rec, Kind: "sweep"}, Forgery{Rec: rec, Kind: "trunc-all"},
-						Forgery{Rec: rec, Kind: "splice"}, Forgery{Rec: rec, Kind: "recombine", A: rec + 1}, Forgery{Rec: rec, Kind: "extend", A: 0, B: 0})
+						Forgery{Rec: rec, Kind: "splice"}, Forgery{Rec: rec, Kind: "recombine", A: rec + 1}, Forgery{Rec: rec, Kind: "extend", A: 0, B: 0}, Forgery{Rec: rec, Kind: "legacy-frame", A: rec})
 				}
 				if !yield(c) {
 					return
